@@ -86,9 +86,41 @@ def session_traces(report):
     return [(n, e, got.get(k + 1)) for k, (n, _, e) in enumerate(traces)]
 
 
+def stage_traces(report):
+    """One real operation's stage trace (a rule with macros that is found), corrupted one event at a time."""
+    from .props import macroprops
+    rules, listings = macroprops.stage_universe()
+    with_macros = [n for n, r in enumerate(rules) if "macros:" in r["yaml"]]
+    obs = matchpipe.drive({"rules": rules, "listings": listings, "stages": True,
+                           "pairs": [[ri, li] for ri in with_macros[:12] for li in range(0, len(listings), 6)]}, tag="selfstage")
+    good = next(o for o in obs if o["events"][-1] == {"ev": "Return", "result": True}
+                and sum(e["ev"] == "MacroPass" for e in o["events"]) >= 2)
+    base = {"d": good["r"] + 1, "l": good["l"] + 1, "events": good["events"]}
+    variants = [("uncorrupted stage trace", base, "ok:found")]
+
+    def corrupt(name, fn, expect):
+        c = copy.deepcopy(base)
+        fn(c["events"])
+        variants.append((name, c, expect))
+
+    def at(evs, kind, k=0):
+        return [n for n, e in enumerate(evs) if e["ev"] == kind][k]
+
+    corrupt("the regex text altered", lambda ev: ev[at(ev, "EmitRegex")].update(regex=ev[at(ev, "EmitRegex")]["regex"] + "x"), "rej:EmitRegex:RegexText")
+    corrupt("one macro pass missing", lambda ev: ev.pop(at(ev, "MacroPass")), "rej:MacroPass:OrderOfDefinitions")
+    corrupt("the tree after a pass altered", lambda ev: ev[at(ev, "MacroPass", 1)]["doc"]["items"][0].update(s="$or"), "rej:MacroPass:TreeAfterPass")
+    corrupt("a stale full-match flag", lambda ev: ev[at(ev, "LoadRule")].update(mfm="True"), "rej:LoadRule:Config")
+    corrupt("one record missing from the stream", lambda ev: ev[at(ev, "ParseListing")].update(stream=ev[at(ev, "ParseListing")]["stream"].split("|", 1)[1]), "rej:ParseListing:Stream")
+    corrupt("the scan result flipped", lambda ev: ev[at(ev, "Scan")].update(found=False), "rej:Scan:Found")
+    corrupt("the returned verdict flipped", lambda ev: ev[-1].update(result=False), "rej:Return:Result")
+    corrupt("the operation raises although every stage succeeded", lambda ev: ev.__setitem__(len(ev) - 1, {"ev": "Raise", "exc": "X"}), "rej:Raise:ModelDoesNotFail")
+    final = macroprops.validate_stage_traces([v[1] for v in variants], report, "selftest Trace_Jasm")
+    return [(n, e, final.get(k + 1, (None,))[0]) for k, (n, _, e) in enumerate(variants)]
+
+
 def main():
     report = Report("selftest", "quick")
-    rows = match_traces(report) + parse_traces(report) + session_traces(report)
+    rows = match_traces(report) + parse_traces(report) + session_traces(report) + stage_traces(report)
     bad = 0
     for name, expect, got in rows:
         ok = got is not None and got.split("|")[0] == expect
